@@ -1,6 +1,7 @@
 #!/usr/bin/env python3
 """Re-run the registered checks against every stored seed (apply to /repo, run, undo) and refresh seeded/<id>/meta.json."""
 import json, os, subprocess, sys, time
+os.environ["VERIF_EVIDENCE_DIR"] = os.path.join(os.path.dirname(os.path.dirname(os.path.abspath(__file__))), "build", "seed-evidence")
 ROOT = os.path.dirname(os.path.dirname(os.path.abspath(__file__)))
 only = sys.argv[1:]
 rows = []
